@@ -121,6 +121,25 @@ Lemma ex_leaf_means :
   ROk (mk_rmat [2; 3; 5] [12; 10; 11] [[8; 0; 24]; [20; 40; 60]; [4; 8; 12]] Log2CPM).
 Proof. vm_compute. reflexivity. Qed.
 
+(* the same file without any gene: refused with the ValueError of aggregate_stats (code 23), whatever
+   for_marker_selection; with one gene: accepted *)
+Definition ex_sf_nogene : sfile :=
+  mk_sfile true true [(3, 0); (5, 2); (2, 1); (9, 3)] [] [2; 4; 0; 1] [[]; []; []; []].
+Definition ex_sf_onegene : sfile :=
+  mk_sfile true true [(3, 0); (5, 2); (2, 1); (9, 3)] [12] [2; 4; 0; 1] [[10]; [8]; [1]; [7]].
+Lemma ex_zero_genes :
+  sf_wf ex_sf_nogene /\
+  get_leaf_means Z ex_mean ex_tree ex_sf_nogene false = RErr RE_ZEROGENES /\
+  get_leaf_means Z ex_mean ex_tree ex_sf_nogene true = RErr RE_ZEROGENES /\
+  get_leaf_means Z ex_mean ex_tree ex_sf_onegene true =
+  ROk (mk_rmat [2; 3; 5] [12] [[8]; [20]; [4]] Log2CPM).
+Proof.
+  split; [|vm_compute; repeat split; reflexivity].
+  unfold sf_wf. cbn. split; [reflexivity|]. split; [repeat constructor|]. split.
+  - repeat constructor; cbn; intuition discriminate.
+  - repeat constructor; cbn; lia.
+Qed.
+
 Lemma ex_assemble_root :
   rbind (get_leaf_means Z ex_mean ex_tree ex_sf false) (fun m =>
     assemble_reference Z ex_tree ex_groups ex_refg ex_qg ex_qg Log2CPM m None) =
